@@ -5,66 +5,66 @@ ROOT = os.path.dirname(os.path.dirname(os.path.abspath(__file__)))
 
 # id -> (technique, level text, level note, design ref)
 CHECKS = {
- "C07": ("metamorphic property-based testing (proptest): triples built from equivalence-preserving and near-miss variants, both directions against a reference equivalence (R-EQUIV), RST laws, 23 cross-type impls, every comparison under catch_unwind",
+ "C07": ("metamorphic property-based testing (proptest): triples built from equivalence-preserving and near-miss variants, both directions against a reference equivalence (R-EQUIV), RST laws, 23 cross-type impls, every comparison under catch_unwind; values paired with prefix views of their own buffer and with base()/directory()/parent views (same start address); long near-miss values of every length 1..300",
          "300 k triples per quick run over 11 comparable kinds x 2 families, incl. ill-formed %XX octets; the expected verdict is computed from the two texts by the documented rule, independently of how the variant was made.",
          "Trusts the octet decoder / Appendix-B splitter / dot-segment model in the harness.", "DESIGN.md 4/C07"),
- "C08": ("metamorphic property-based testing (proptest): Eq=>Hash under two fixed hashers, total-order laws, owned vs borrowed, cross-type PartialOrd, every Borrow view incl. HashSet/BTreeSet lookups",
+ "C08": ("metamorphic property-based testing (proptest): Eq=>Hash under two fixed hashers, total-order laws, owned vs borrowed, cross-type PartialOrd, every Borrow view incl. HashSet/BTreeSet lookups (third hasher is sensitive to how bytes are split over write calls); values paired with prefix views of their own buffer; long near-miss values",
          "200 k triples per quick run, 9 ordered pairs each; collection lookups through each Borrow view of equal and unequal values.",
          "Hash values are only related through equality; Borrow<str>/<[u8]> are outside the property.", "DESIGN.md 4/C08"),
- "C13": ("differential property-based testing (proptest): 42 conversion routes against the independent recogniser, and URI-family vs IRI-family on the same ASCII input (components, ==/cmp/hash, resolution, editing traces)",
+ "C13": ("differential property-based testing (proptest): 42 conversion routes against the independent recogniser, and URI-family vs IRI-family on the same ASCII input (components, ==/cmp/hash, resolution, editing traces); conversions also on misaligned / re-used buffers and with one non-ASCII scalar at every alignment; comparison against prefix views of the same buffer and against values differing only in query and fragment",
          "150 k cases per quick run; success iff the target grammar accepts, text/address preserved, failure hands back the original.",
          "Trusts R-ABNF for the expected success of each conversion.", "DESIGN.md 4/C13"),
- "C14": ("property-based testing (proptest): (type, input) x ~30 routes out and ~25 routes in (incl. serde value deserialisers for strings and byte strings), text identity and accept-iff-constructor-accepts",
+ "C14": ("property-based testing (proptest): (type, input) x ~30 routes out and ~25 routes in (incl. serde value deserialisers for strings and byte strings), text identity and accept-iff-constructor-accepts; plain-text comparison judged route by route (str, &str, String, [u8], &[u8], [u8; N], borrowed and owned) incl. sub-slices of the value's own text; cross-type AsRef/Borrow views; clone_from",
          "150 k (type, input) pairs per quick run over valid, mutated and ill-formed-UTF-8 inputs for all 20 types.",
          "Routes in are judged against the library's checked constructor (whose language is C01's subject).", "DESIGN.md 4/C14"),
- "C15": ("round-trip property-based testing (proptest): pairs around a shared stem; relative_to then resolution, judged by the library and by the reference resolver/equivalence",
+ "C15": ("round-trip property-based testing (proptest): pairs around a shared stem; relative_to then resolution, judged by the library and by the reference resolver/equivalence; pairs that are views of one buffer (both ways round) and a value relative to itself",
          "300 k pairs per quick run, classes for every relation of a to b's directory.",
          "Two recorded findings are excluded by narrow matchers (unreachable targets with a final dot segment; C06 resolution quirk).", "DESIGN.md 4/C15"),
- "C16": ("property-based testing (proptest): (value, prefix) pairs around a shared stem with equivalence-preserving rewrites; iff-oracle on normalized segment prefixes; base() against a text cut",
+ "C16": ("property-based testing (proptest): (value, prefix) pairs around a shared stem with equivalence-preserving rewrites; iff-oracle on normalized segment prefixes; base() against a text cut; the prefix being the value itself or a view of its buffer; corresponding long segments of every length 1..400 equal once decoded or differing in one position",
          "200 k cases per quick run over Path::suffix, Ri/RiRef::suffix and base().",
          "Trusts the dot-segment model and octet decoder.", "DESIGN.md 4/C16"),
- "C17": ("generated programs with the compiler in the loop: batches of macro invocations compiled with rustc (JSON diagnostics mapped to literals), accepted constants compared with the run-time parse in a second generated program",
+ "C17": ("generated programs with the compiler in the loop: batches of macro invocations compiled with rustc (JSON diagnostics mapped to literals), accepted constants compared with the run-time parse in a second generated program; 6 source spellings incl. raw strings, all-escapes, escape_default and line continuations (also in front of Unicode white space that Rust does not skip)",
          "1000 (quick) to ~19 k (thorough) one-invocation programs over 4 macros x 3 source spellings; compile-time rejected set == run-time rejected set; values indistinguishable.",
          "The compiler is part of the system under test; thousands, not millions, of programs.", "DESIGN.md 4/C17"),
- "C18": ("property-based testing (proptest): data-URL-shaped byte strings and mutants; borrowed vs owned differential, reassembly, own RFC 4648 codec; watchdog for unbounded loops; libFuzzer in thorough",
+ "C18": ("property-based testing (proptest): data-URL-shaped byte strings and mutants; borrowed vs owned differential, reassembly, own RFC 4648 codec; watchdog for unbounded loops; libFuzzer in thorough; every sequence of <= 5 tokens after 'data:'; serde, Deref/AsRef/Borrow views and clone_from in both directions",
          "300 k inputs per quick run; every accessor of the borrowed form (re-scan) against the owned form (stored offsets) and against the text's own split.",
          "Media-type syntax is left open (accept => shape, not the converse).", "DESIGN.md 4/C18"),
- "C19": ("exhaustive enumeration of all 1- and 2-escape patterns (x 10 types) + structured longer patterns + proptest mixes; octet-decoder and std::str::from_utf8 as oracle",
+ "C19": ("exhaustive enumeration of all 1- and 2-escape patterns (x 10 types) + structured longer patterns + proptest mixes; octet-decoder and std::str::from_utf8 as oracle; every component read back from 3-5 embedding contexts (numeric passwords, many-colon user infos, well-known schemes)",
          "663 k enumerated + 100 k random components per quick run; bytes() always, chars/len/decode/==str on well-formed octets, totality and non-aliasing on ill-formed ones.",
          "Two recorded findings in the pct-str / utf8-decode dependencies (panic on ill-formed octets; overlong forms accepted) are excluded by matchers keyed on octet well-formedness and panic site.", "DESIGN.md 4/C19"),
- "C20": ("property-based testing (proptest) with a counting global allocator (thread-local, armed around the calls) and pointer-range checks",
+ "C20": ("property-based testing (proptest) with a counting global allocator (thread-local, armed around the calls) and pointer-range checks; the same inputs misaligned inside a larger buffer; every component length 0..1100 (+ every 97th to 70 000)",
          "100 k inputs per quick run (incl. > 64 KiB), ~35 read-only calls each inside one armed region; allocation count must be 0 and every slice must lie in the input in component order.",
          "Allocating operations (normalized*, suffix, relative_to, to_owned, resolution) are outside the statement.", "DESIGN.md 4/C20"),
 
- "C01": ("exhaustive enumeration (every byte / Unicode scalar value per context, all short strings over a focused alphabet, all IPv6/dec-octet shapes) + proptest (grammar derivations, mutants, random bytes), differential against an independent RFC 3986/3987 recogniser; libFuzzer in thorough",
+ "C01": ("exhaustive enumeration (every byte / Unicode scalar value per context, all short strings over a focused alphabet, all IPv6/dec-octet shapes) + proptest (grammar derivations, mutants, random bytes), differential against an independent RFC 3986/3987 recogniser; libFuzzer in thorough; every non-sweep input is also judged at an odd offset of a larger buffer and in a buffer re-used from the previous input of that length",
          "Both directions of 'accepted iff derivable' on ~60 M enumerated and ~400 k random (type, input) pairs per quick run, through every construction route, with text/payload identity. Closes all single-token and short-string sub-domains completely; longer inputs are sampled.",
          "Trusts the hand-transcribed RFC grammar (self-checked: RFC example tables, interpreter vs automaton, direct IPv4/IPv6 recogniser). The driver's stamp makes the verdict one about the current grammar/automaton files.", "DESIGN.md 4/C01"),
- "C03": ("exhaustive product of user-info x host x port pools + proptest random authorities, vs RFC 3986 3.2 splitter oracle",
+ "C03": ("exhaustive product of user-info x host x port pools + proptest random authorities, vs RFC 3986 3.2 splitter oracle; every authority read inside 5 schemes x 8 tails, misaligned and in a re-used buffer; every ordered pair of 72 equal-length authorities read one after the other from one buffer",
          "Every accessor (user_info, host, port, parts) of stand-alone and embedded authorities, borrowed and owned, compared with an independent section-3.2 splitter on the complete pool product (12.5 k cases) and 200 k random authorities; parts re-validated; reassembly checked.",
          "Trusts the harness splitter; authorities are gated by the library's checked constructor.", "DESIGN.md 4/C03"),
- "C04": ("stateful property-based testing (proptest op vectors with nested handles) against a validity oracle (checked constructor + independent recogniser + UTF-8 + no panic) after every op; libFuzzer+ASan in thorough",
+ "C04": ("stateful property-based testing (proptest op vectors with nested handles) against a validity oracle (checked constructor + independent recogniser + UTF-8 + no panic) after every op; libFuzzer+ASan in thorough; exhaustive histories of length <= 2 over 31 ops from 13 buffers; arguments and buffers of 1 MiB+3 .. 8 MiB+1 each followed by a small case on the same thread",
          "200 k (quick) generated histories of setters / authority_mut / path_mut / resolve over all ways of obtaining a buffer, validity judged after every call and all accessors exercised. Finds any reachable ill-formed buffer within the generated history shapes; no proof.",
          "Trusts the R-ABNF recogniser and the checked constructors (C01).", "DESIGN.md 4/C04"),
- "C05": ("property-based testing (proptest): (buffer, setter, value) triples against an exact expected-text oracle built from Appendix-B components and the three documented disambiguations",
+ "C05": ("property-based testing (proptest): (buffer, setter, value) triples against an exact expected-text oracle built from Appendix-B components and the three documented disambiguations; complete product of 720 buffer shapes x 29 calls; every ordered pair of 120 related calls on two buffers (state carried between calls); tail lengths 0..25 000 through each setter; 1-8 MiB values",
          "300 k triples per quick run; the observed text must equal the section 5.3 recomposition with exactly the permitted path adjustment, so both a missing and an unnecessary disambiguation fail, as does any change to another component.",
          "Trusts the Appendix-B splitter and recomposition; for the empty path under an authority both '' and '/' are accepted.", "DESIGN.md 4/C05"),
- "C06": ("property-based testing (proptest): (base, reference) pairs from a dot-rich structural generator, differential against an own RFC 3986 5.2 resolver; three entry points and two families compared; libFuzzer in thorough",
+ "C06": ("property-based testing (proptest): (base, reference) pairs from a dot-rich structural generator, differential against an own RFC 3986 5.2 resolver; three entry points and two families compared; libFuzzer in thorough; complete product 96 bases x ~900 references; the same reference against a sibling base right after (state between calls); base and reference as views of one buffer",
          "300 k pairs per quick run over all 5.2.2 branches x base shapes (class floors per cell), byte-identical comparison with the RFC target when it is unambiguous, validity + component + path-rendering check when it is not.",
          "Trusts the harness resolver (R-NORM self-checked against a literal 5.2.4). For relative merged paths whose normal form starts with an empty segment both the literal and the Errata-4547 reading are accepted (the statement does not settle it).", "DESIGN.md 4/C06"),
- "C09": ("exhaustive enumeration of all paths <= 6 segments over {a,b:c,'',.,..} (stand-alone + 3 embeddings) + proptest random long paths, vs dot-segment model",
+ "C09": ("exhaustive enumeration of all paths <= 6 segments over {a,b:c,'',.,..} (stand-alone + 3 embeddings) + proptest random long paths, vs dot-segment model; lengths beyond the inline buffers, 1-8 MiB segments followed by small paths on the same thread; thorough tier: one path beyond 4 GiB per family",
          "normalized_segments / normalized / PathBuf::normalize / PathMut::normalize judged against the N/E model (itself checked against a literal RFC 5.2.4), with idempotence, absoluteness and frame checks.",
          "Trusts the dot-segment model; a lone empty segment may be written the RFC way ('/' or '').", "DESIGN.md 4/C09"),
- "C10": ("model-based stateful property testing (proptest op vectors through one handle) against a list model with shield-reading sets",
+ "C10": ("model-based stateful property testing (proptest op vectors through one handle) against a list model with shield-reading sets; complete product 31 paths x 5 hosts x all op sequences <= 2 over 12 ops; histories of 63..513 (thorough 4097) calls through one handle",
          "300 k op vectors per quick run on stand-alone and embedded paths; after every op the handle view must be a valid path that is a reading of the model list; frame and handle-reuse differentials.",
          "A leading '.' before an empty/colon segment is read both as shield and as segment (the text cannot tell); pop on an empty path after an authority may stay or give '/..'.", "DESIGN.md 4/C10"),
- "C11": ("model-based stateful property testing (proptest op vectors through one AuthorityMut handle) against a (userinfo, host, port) model",
+ "C11": ("model-based stateful property testing (proptest op vectors through one AuthorityMut handle) against a (userinfo, host, port) model; complete product 60 authority shapes x 5 tails x all call sequences <= 2 over 11 calls; arguments derived from the current value; histories of 63..1025 (thorough 65 537) calls through one handle; 1-5 MiB sub-components",
          "200 k vectors per quick run; exact handle view after every call, exact final text, fresh-handle differential.",
          "Trusts the section-3.2 splitter and recomposition.", "DESIGN.md 4/C11"),
 
- "C02": ("property-based testing (proptest): structural reference generator + accepted mutants vs RFC 3986 Appendix-B splitter oracle; libFuzzer in thorough",
+ "C02": ("property-based testing (proptest): structural reference generator + accepted mutants vs RFC 3986 Appendix-B splitter oracle; libFuzzer in thorough; the same text also parsed misaligned inside a larger buffer and in a re-used buffer; exhaustive sweeps: every ucschar/iprivate scalar in every slot, every component length 0..1100 (+ every 97th to 70 000)",
          "Generated-input search: ~300k (quick) / millions (thorough) generated references of both families, every accessor of the four borrowed and four owned types compared with an independent Appendix-B splitter, components re-validated, section 5.3 recomposition checked. Finds wrong index arithmetic on any generated shape; gives no proof of absence.",
          "Trusts the harness's Appendix-B splitter and R-ABNF recogniser (self-checked at start-up) and the library's checked constructor as validity gate (its language is C01's subject).", "DESIGN.md 4/C02"),
- "C12": ("exhaustive enumeration of short paths x all next/next_back schedules + proptest random long paths, vs '/'-split oracle",
+ "C12": ("exhaustive enumeration of short paths x all next/next_back schedules + proptest random long paths, vs '/'-split oracle; after every partially consumed state every other consuming adaptor (last, count, nth, nth_back, collect, rev, size_hint); every ucschar scalar; runs of '/' of every length 0..1100 at every offset 0..8",
          "All strings <= 8 over {a,/,.} and <= 5 items over {a,/,é,:,%41}, each under all 2^(n+2) iterator schedules, plus ~200k random paths/schedules; all path queries compared with their definition on the split. Exhaustive inside the enumerated sub-domain, sampled outside.",
          "Trusts the '/'-split and the dot-segment model (self-checked against a literal RFC 3986 5.2.4 implementation).", "DESIGN.md 4/C12"),
 }
